@@ -652,6 +652,10 @@ def hier_case(draw, tier='quick', opts=None):
         deck['cells'] = [deck['cells'][o] for o in order]
         b.labels.add('cells-shuffled')
     b.labels.add('depth:%d' % universe_depth(deck))
+    extra_cards = draw(gen.unrelated_data_cards())
+    if extra_cards:
+        deck['extra_data'] = extra_cards
+        b.labels.add('unrelated-data-cards')
     return {'deck': deck, 'labels': sorted(b.labels), 'tier': tier,
             'box': b.box, 'pseed': draw(st.integers(0, 2 ** 31 - 1))}
 
